@@ -1060,6 +1060,54 @@ func r12_7(c *Ctx) {
 			}
 			c.check(above == "", fnLabel(gi)+":cap-when-above", P.pos(gi.Pos()), "no uncapped result where the interval was found above the limit", "an uncapped interval is returned (at "+above+") on a path that found the current interval above MaxInterval (> 0): an interval that starts above the limit (initial interval or server retry) is never brought back to it")
 		}
+		// the decision to cap is about the GROWN interval: the comparison of the interval with the limit involves
+		// the multiplier (current >= max/mul, or current*mul >= max); comparing the current interval itself lets
+		// one step overshoot the limit
+		{
+			var derives func(v, p ssa.Value, seen map[ssa.Value]bool) bool
+			derives = func(v, p ssa.Value, seen map[ssa.Value]bool) bool {
+				if v == nil || seen[v] {
+					return false
+				}
+				seen[v] = true
+				if v == p {
+					return true
+				}
+				switch y := v.(type) {
+				case *ssa.BinOp:
+					return derives(y.X, p, seen) || derives(y.Y, p, seen)
+				case *ssa.Convert:
+					return derives(y.X, p, seen)
+				case *ssa.ChangeType:
+					return derives(y.X, p, seen)
+				case *ssa.Phi:
+					for _, e := range y.Edges {
+						if derives(e, p, seen) {
+							return true
+						}
+					}
+				}
+				return false
+			}
+			d := func(v, p ssa.Value) bool { return derives(v, p, map[ssa.Value]bool{}) }
+			cur, max, mul := ssa.Value(gi.Params[0]), ssa.Value(gi.Params[1]), ssa.Value(gi.Params[2])
+			nCmp, withMul := 0, 0
+			for _, ifi := range ifsIn(gi) {
+				cnd := decodeIf(ifi)
+				if cnd.Y == nil {
+					continue
+				}
+				if (d(cnd.X, cur) && d(cnd.Y, max)) || (d(cnd.Y, cur) && d(cnd.X, max)) {
+					nCmp++
+					if d(cnd.X, mul) || d(cnd.Y, mul) {
+						withMul++
+					}
+				}
+			}
+			if nCmp > 0 {
+				c.check(withMul > 0, fnLabel(gi)+":cap-test-on-grown-interval", P.pos(gi.Pos()), "the comparison with MaxInterval involves the multiplier (it is about the grown interval)", "the interval is compared with MaxInterval without the multiplier: the cap applies only once the current interval has reached the limit, so one step overshoots it (b_(k+1) = b_k*Multiplier > MaxInterval)")
+			}
+		}
 		c.check(capOK, fnLabel(gi)+":cap", P.pos(gi.Pos()), "growInterval returns MaxInterval only under MaxInterval > 0", "growInterval has no return of MaxInterval guarded by MaxInterval > 0: the interval is never capped")
 	} else if P.Fn("growInterval") == nil {
 		why, capSeen := inlineGrowth(nx)
